@@ -203,6 +203,20 @@ func (c *ctxT) fault(cfg cfgT, mode string, toks []xml.Token, k int, next []xml.
 			mode = "reader"
 		}
 	}
+	if mode == "badend" {
+		d := 0
+		for _, t := range toks[:k] {
+			switch t.(type) {
+			case xml.StartElement:
+				d++
+			case xml.EndElement:
+				d--
+			}
+		}
+		if d != 1 {
+			mode = "reader"
+		}
+	}
 	line := fmt.Sprintf("fault %s %s %s %d %s %s", mode, cfg.ns, cfg.fromField(), k, common.EncToks(toks), common.EncToks(next))
 	lines := []string{r.Prop + " " + line}
 	rs, err := newSess(cfg)
@@ -230,6 +244,12 @@ func (c *ctxT) fault(cfg cfgT, mode string, toks []xml.Token, k int, next []xml.
 			case "badtok":
 				bad := append(append(append([]xml.Token(nil), toks[:k]...), xml.EndElement{Name: xml.Name{Local: "zzz"}}), toks[k:]...)
 				err1 = rs.S.Send(ctx, reader(bad))
+			case "badend":
+				// SendElement copies its whole payload: an unmatched end tag directly inside the
+				// element brings the stanza encoder's depth back to 0 although the XML encoder refused it
+				st := toks[0].(xml.StartElement)
+				payload := append(append([]xml.Token(nil), toks[1:k]...), xml.EndElement{Name: xml.Name{Local: "zzz"}})
+				err1 = rs.S.SendElement(ctx, reader(payload), st)
 			}
 		})
 	})
@@ -335,6 +355,9 @@ func (c *ctxT) faultCorpus(cfg cfgT) {
 		c.fault(cfg, "tw", msg, k, next)
 		if k == 2 || k == 3 {
 			c.fault(cfg, "badtok", msg, k, next)
+		}
+		if k == 1 || k == 4 {
+			c.fault(cfg, "badend", msg, k, next)
 		}
 	}
 }
